@@ -131,3 +131,307 @@ def _card(interp, args, kwargs, node):
 @S.spec("is_series")
 def _is_series(interp, args, kwargs, node):
     return VBool(isinstance(args[0], VColl) and args[0].kind == "Series")
+
+
+# ---- light DataFrame model: a frame with concretely named columns, each a positional sequence ----
+
+def make_frame(interp, cols):
+    f = VObj("DataFrame")
+    f.cols = cols            # list of (name str, VList)
+    f.sid = "frame(" + ",".join(str(getattr(c, "sid", n)) for n, c in cols) + ")"
+    f.nrows = None
+    return interp.born(f)
+
+
+@extern("type:DataFrame")
+def dataframe_ctor(interp, args, kwargs, node):
+    data = kwargs.get("data", args[0] if args else None)
+    columns = kwargs.get("columns")
+    if isinstance(data, E.VZip) and isinstance(columns, VTuple) and len(columns.items) == len(data.its):
+        interp.ctx.assumed.add("extern:pandas.DataFrame(rows, columns=names): column k holds the k-th component of every row, in order")
+        names = [concrete_str(c) for c in columns.items]
+        return make_frame(interp, list(zip(names, data.its)))
+    return interp.born(E.opaque(interp, "pandas.DataFrame", args, kwargs, "DataFrame"))
+
+
+def _frame_eq(interp, a, b, node):
+    ca, cb = getattr(a, "cols", None), getattr(b, "cols", None)
+    if ca is None or cb is None:
+        return None
+    if [n for n, _ in ca] != [n for n, _ in cb]:
+        return z3.BoolVal(False)
+    return z3.And(*[interp.seq_eq(x, y, node) for (_, x), (_, y) in zip(ca, cb)])
+
+
+E.HOOKS["eq"].append(_frame_eq)
+
+
+@S.spec("is_pair_tuple")
+def _is_pair_tuple(interp, args, kwargs, node):
+    v = args[0]
+    return VBool(isinstance(v, VTuple) and len(v.items) == 2)
+
+
+@S.spec("paired_frame")
+def _paired_frame(interp, args, kwargs, node):
+    v = args[0]
+    return make_frame(interp, [("CDR3A", v.items[0]), ("CDR3B", v.items[1])])
+
+
+@extern("warnings.warn")
+def _warn(interp, args, kwargs, node):
+    return NONE
+
+
+# ---- symbolic tables with concretely named string columns ---------------------------------
+
+class TableT(T.T):
+    """DataFrame with the given column names; every cell is a string (a missing cell is modelled as the
+    one distinct empty value '' -- the property's convention); symbolic number of rows; default index."""
+
+    def __init__(self, cols, min_rows=0, nodot=None):
+        self.cols, self.min_rows, self.nodot = list(cols), min_rows, nodot
+
+    def family(self, name, ctx, psorts):
+        n = ctx.fresh(name + "_nrows", z3.IntSort())
+        ctx.assume(n >= self.min_rows)
+        cols = []
+        for c in self.cols:
+            f = ctx.fresh_fun(f"{name}_{c}", z3.IntSort(), z3.StringSort())
+            col = VList(SymSeq(n, (lambda f: lambda k: VStr(f(k)))(f), T.Str), "Series")
+            col.labels = None
+            col.sid = f"{name}.{c}"
+            cols.append((c, col))
+        fr = VObj("DataFrame")
+        fr.cols = cols
+        fr.sid = name
+        fr.nrows = n
+        return lambda p: fr
+
+    def decode(self, model, value):
+        n = max(0, min(T.mval(model, value.nrows).as_long(), 24))
+        data = {}
+        for c, col in value.cols:
+            data[c] = [T.mval(model, col.content.at(z3.IntVal(k)).term).as_string() for k in range(n)]
+        return {"t": "table", "columns": data}
+
+
+T.NAMESPACE.update(TableT=TableT)
+
+
+def _frame_len(interp, v, node):
+    if isinstance(v, VObj) and getattr(v, "cols", None):
+        return VInt(interp.seq_len(v.cols[0][1]))
+    return None
+
+
+E.LEN_HOOKS.append(_frame_len)
+
+
+def _frame_index(interp, base, idx, node):
+    cols = getattr(base, "cols", None) if isinstance(base, VObj) else None
+    if cols is None:
+        return None
+    d = dict(cols)
+    name = concrete_str(idx) if isinstance(idx, VStr) else None
+    if name is not None:
+        if name not in d:
+            raise_py(interp, "KeyError", name, node)
+        return d[name]
+    names = interp.concrete_iter(idx) if isinstance(idx, (VList, VTuple)) else None
+    if names is not None:
+        ns = [concrete_str(x) for x in names]
+        if any(n is None for n in ns):
+            raise Unsupported("symbolic column name")
+        for n in ns:
+            if n not in d:
+                raise_py(interp, "KeyError", n, node)
+        fr = VObj("DataFrame")
+        fr.cols = [(n, d[n]) for n in ns]
+        fr.sid = f"{getattr(base, 'sid', 'df')}[{','.join(ns)}]"
+        fr.nrows = getattr(base, "nrows", None)
+        return interp.born(fr)
+    raise Unsupported(f"DataFrame[...] with {idx!r}")
+
+
+E.HOOKS["index"].append(_frame_index)
+
+
+def _frame_contains(interp, container, item, node):
+    cols = getattr(container, "cols", None) if isinstance(container, VObj) else None
+    if cols is None:
+        return None
+    name = concrete_str(item)
+    if name is None:
+        raise Unsupported("symbolic column membership")
+    return z3.BoolVal(name in dict(cols))
+
+
+E.HOOKS["contains"].append(_frame_contains)
+
+
+@method("DataFrame", "fillna")
+def _df_fillna(interp, sv, args, kwargs, node):
+    if getattr(sv, "cols", None) is None:
+        return interp.born(E.opaque(interp, "DataFrame.fillna", [sv] + args, kwargs, "DataFrame"))
+    if "inplace" in kwargs:
+        raise Unsupported("fillna(inplace=...)")
+    v = args[0] if args else kwargs.get("value")
+    if concrete_str(v) != "":
+        raise Unsupported("fillna with a value other than ''")
+    interp.ctx.assumed.add("extern:DataFrame.fillna('') returns a NEW frame where missing cells hold '' (model: missing == '')")
+    fr = VObj("DataFrame")
+    fr.cols, fr.sid, fr.nrows = list(sv.cols), sv.sid, getattr(sv, "nrows", None)
+    return interp.born(fr)
+
+
+@method("DataFrame", "apply")
+def _df_apply(interp, sv, args, kwargs, node):
+    cols = getattr(sv, "cols", None)
+    f = args[0] if args else kwargs.get("func")
+    ax = kwargs.get("axis", args[1] if len(args) > 1 else VInt(0))
+    if cols is None or concrete_int(ax) != 1:
+        raise Unsupported("DataFrame.apply is modelled for axis=1 on frames with known columns")
+    interp.ctx.assumed.add("extern:DataFrame.apply(f, axis=1): Series of f(row) for every row in order; a row is the Series of its cells in column order")
+    n = interp.seq_len(cols[0][1])
+
+    def at(k):
+        row = VList(ConcreteSeq([c.content.at(k) for _, c in cols]), "Series")
+        row.labels = None
+        return interp.call(f, [row], {}, node)
+    probe = at(z3.Int("k!canon"))
+    ek = T.Str if isinstance(probe, VStr) else None
+    r = VList(SymSeq(n, at, ek), "Series")
+    r.labels = None
+    r.sid = structural_sid(probe, n)
+    return interp.born(r)
+
+
+@method("Series", "astype")
+def _series_astype(interp, sv, args, kwargs, node):
+    t = args[0]
+    if isinstance(t, VType) and t.name == "str" and isinstance(sv.content, ConcreteSeq) and all(isinstance(x, VStr) for x in sv.content.items):
+        return sv
+    raise Unsupported("Series.astype")
+
+
+def structural_sid(probe, n):
+    """identity of a derived sequence = its defining term at a canonical index (so the same map over the
+    same data has the same identity on the code side and on the spec side)"""
+    import hashlib
+    t = probe.term if hasattr(probe, "term") and probe.term is not None else None
+    if t is None:
+        raise Unsupported("derived sequence of non-scalar elements")
+    return "map:" + hashlib.sha1((z3.simplify(t).sexpr() + "|" + n.sexpr()).encode()).hexdigest()[:12]
+
+
+def rowkeys(interp, fr):
+    """the sequence of row tuples of a frame (spec)"""
+    cols = fr.cols
+    n = interp.seq_len(cols[0][1])
+    r = VList(SymSeq(n, lambda k: VTuple([c.content.at(k) for _, c in cols]), None), "list")
+    r.sid = f"rows[{fr.sid}]"
+    return r
+
+
+@S.spec("rows")
+def _rows(interp, args, kwargs, node):
+    fr = args[0]
+    if len(args) > 1:
+        fr = _frame_index(interp, fr, args[1], node)
+    return rowkeys(interp, fr)
+
+
+@S.spec("no_cell_contains")
+def _no_cell_contains(interp, args, kwargs, node):
+    fr, ch = args
+    k = z3.Int("k!nc")
+    n = interp.seq_len(fr.cols[0][1])
+    parts = [z3.Not(z3.Contains(c.content.at(k).term, ch.term)) for _, c in fr.cols]
+    return VBool(z3.ForAll([k], z3.Implies(z3.And(k >= 0, k < n), z3.And(*parts))))
+
+
+@S.spec("is_table")
+def _is_table(interp, args, kwargs, node):
+    return VBool(isinstance(args[0], VObj) and getattr(args[0], "cols", None) is not None)
+
+
+@S.spec("sample_keys")
+def _sample_keys(interp, args, kwargs, node):
+    """what pc counts coincidences of: the elements of a sequence, the rows of a table, the
+    (alpha, beta) pairs of the legacy tuple form"""
+    x = args[0]
+    if isinstance(x, VObj) and getattr(x, "cols", None) is not None:
+        return rowkeys(interp, x)
+    if isinstance(x, VTuple) and len(x.items) == 2:
+        fr = make_frame(interp, [("CDR3A", x.items[0]), ("CDR3B", x.items[1])])
+        return rowkeys(interp, fr)
+    return x
+
+
+@S.spec("cells_ok")
+def _cells_ok(interp, args, kwargs, node):
+    """the property's precondition on tables: no cell text contains the join character"""
+    x, ch = args
+    if isinstance(x, VObj) and getattr(x, "cols", None) is not None:
+        return _no_cell_contains(interp, [x, ch], {}, node)
+    if isinstance(x, VTuple) and len(x.items) == 2:
+        fr = make_frame(interp, [("CDR3A", x.items[0]), ("CDR3B", x.items[1])])
+        return VBool(z3.And(_no_cell_contains(interp, [fr, ch], {}, node).term,
+                            interp.seq_len(x.items[0]) == interp.seq_len(x.items[1])))
+    return VBool(True)
+
+
+@S.spec("columns")
+def _columns(interp, args, kwargs, node):
+    return VList(ConcreteSeq([VStr(n) for n, _ in args[0].cols]))
+
+
+@S.spec("all_in")
+def _all_in(interp, args, kwargs, node):
+    xs = interp.iter_concrete(args[0])
+    return VBool(z3.And(*[interp.contains(args[1], x) for x in xs]))
+
+
+@S.spec("joined_rows")
+def _joined_rows(interp, args, kwargs, node):
+    """row-wise serialisation sep.join(cells) of a table / legacy pair; other samples are returned unchanged"""
+    x, sep = args[0], args[1]
+    if isinstance(x, VTuple) and len(x.items) == 2:
+        x = make_frame(interp, [("CDR3A", x.items[0]), ("CDR3B", x.items[1])])
+    if not (isinstance(x, VObj) and getattr(x, "cols", None) is not None):
+        return x
+    if len(args) > 2:
+        x = _frame_index(interp, x, args[2], node)
+    cols = x.cols
+    n = interp.seq_len(cols[0][1])
+
+    def at(k):
+        row = VList(ConcreteSeq([c.content.at(k) for _, c in cols]), "Series")
+        return E.METHODS[("str", "join")](interp, sep, [row], {}, node)
+    r = VList(SymSeq(n, at, T.Str), "Series")
+    r.labels = None
+    r.sid = structural_sid(at(z3.Int("k!canon")), n)
+    return r
+
+
+@S.spec("comparable")
+def _comparable(interp, args, kwargs, node):
+    """two samples whose elements can coincide: both tables of the same width, or both plain sequences"""
+    a, b = args
+
+    def width(x):
+        if isinstance(x, VObj) and getattr(x, "cols", None) is not None:
+            return len(x.cols)
+        if isinstance(x, VTuple) and len(x.items) == 2:
+            return 2
+        return 0
+    if isinstance(b, VNone) or isinstance(a, VNone):
+        return VBool(True)
+    if width(a) != width(b):
+        return VBool(False)
+    if width(a) == 0:
+        ka = type(a.content.elem_kind).__name__ if isinstance(a, VList) and isinstance(a.content, SymSeq) else None
+        kb = type(b.content.elem_kind).__name__ if isinstance(b, VList) and isinstance(b.content, SymSeq) else None
+        return VBool(ka == kb)
+    return VBool(True)
